@@ -255,10 +255,10 @@ func initBeforeUse(c *Ctx, handler *ssa.Function, G *ssa.Global, ro *Roots) (boo
 			if !ok || len(ret.Results) != 2 {
 				return
 			}
-			if !isNilConst(ex.Resolve(st, ret.Results[1])) {
+			if !isNilConst(ex.ResolveDeep(st, ret.Results[1])) {
 				return // error return
 			}
-			r0 := ex.Resolve(st, ret.Results[0])
+			r0 := ex.ResolveDeep(st, ret.Results[0])
 			if f, ok := r0.(*ssa.Function); !ok || f != handler {
 				return
 			}
